@@ -48,6 +48,13 @@ def jsonLines (t : Tree) (vis : Nat → String → Bool) (ks : List JKey) (docke
     p ++ "=" ++ (match hit with
       | some k => (match idx dockeys (tagName k.key) with | some j => s!"arg{j}" | none => "zero")
       | none => "zero"))
+  -- decoding into a USED receiver: a leaf the document governs (exported, or unexported with a setter) ends up exactly as
+  -- in a fresh receiver whatever it held before and whether or not its key is present (the shadow struct starts from zero
+  -- and every listed field is assigned from it); every other leaf keeps what it held
+  let dline := ls.map (fun l =>
+    let p := pathKey l.1 l.2.2.1.name
+    let hit := ks.find? (fun k => (k.exported || k.hasSet) && (targetOf t vis k.name).map (·.1) = some p)
+    p ++ "=" ++ (if hit.isSome then "same" else "dirty"))
   -- one embedded pointer nil, the rest filled: MarshalJSON's guard of a field names exactly the pointer embeds on ITS way
   let lps := leavesPtrs [] [] 0 t
   let ptrsOf (name : String) : List (List String) :=
@@ -68,6 +75,7 @@ def jsonLines (t : Tree) (vis : Nat → String → Bool) (ks : List JKey) (docke
   -- the keys of the marshalled object: those not left out
   let present := mline.map (fun kv => (kv.splitOn "=").headD "")
   [("keys", " ".intercalate present), ("marshal", ";".intercalate mline), ("um", ";".intercalate uline),
+   ("umdirty", ";".intercalate dline), ("umdirtyp", ";".intercalate dline),
    ("umnil", if nilPanic then "panic" else "ok"), ("mnil", "ok")] ++ mparts
 
 /-- `(json (getset b) (tagcase c) (typedoc …) (facts …) (dockeys k…) (tree M…))` -/
